@@ -125,6 +125,48 @@ func init() {
 			}
 		}
 		rec(orb.LineString{})
+		// (1b) lines whose farthest vertex keeps falling near one end of the remaining range (damped zig-zags, spirals,
+		// staircases): the recursion of Douglas-Peucker nests linearly, the Visvalingam heap is updated at one end
+		for i := 0; i < c.pick(400, 6000); i++ {
+			k := 20 + c.rng.Intn(30)
+			ls := orb.LineString{}
+			switch i % 3 {
+			case 0: // damped zig-zag
+				for j := 0; j < k; j++ {
+					amp := float64((k - j) / 2)
+					if j%2 == 1 {
+						amp = -amp
+					}
+					ls = append(ls, orb.Point{float64(j), amp})
+				}
+			case 1: // square spiral inwards
+				x, y, dx, dy, run := 0.0, 0.0, 1.0, 0.0, float64(k/3+2)
+				for j := 0; j < k && run > 0; j++ {
+					ls = append(ls, orb.Point{x, y})
+					x, y = x+dx*run, y+dy*run
+					dx, dy = -dy, dx
+					if j%2 == 1 {
+						run--
+					}
+				}
+			default: // growing zig-zag (the mirror image)
+				for j := 0; j < k; j++ {
+					amp := float64(j / 2)
+					if j%2 == 1 {
+						amp = -amp
+					}
+					ls = append(ls, orb.Point{float64(j), amp})
+				}
+			}
+			if c.rng.Intn(2) == 0 {
+				for a, b := 0, len(ls)-1; a < b; a, b = a+1, b-1 {
+					ls[a], ls[b] = ls[b], ls[a]
+				}
+			}
+			for _, alg := range []string{"dp", "radial", "vis"} {
+				emit(ls, alg, "line", i%2 == 0, c.rng.Intn(len(ths)), 0, false)
+			}
+		}
 		// (2) seeded paths to 40 vertices with repeated, collinear and coincident-endpoint vertices
 		n := c.pick(15000, 300000)
 		for i := 0; i < n; i++ {
